@@ -1,6 +1,558 @@
 package main
 
-func cmdCheck(args []string) int    { return 2 }
-func cmdLock(args []string) int     { return 2 }
-func cmdSelftest(args []string) int { return 2 }
-func cmdReplay(args []string) int   { return 2 }
+// Property checks: select functions under contract, discharge obligations, report, write evidence.
+
+import (
+	"encoding/json"
+	"flag"
+	"fmt"
+	"os"
+	"path/filepath"
+	"sort"
+	"strconv"
+	"strings"
+	"time"
+)
+
+type KnownFinding struct {
+	Property   string `json:"property"`
+	Status     string `json:"status"` // known | fixed
+	Obligation string `json:"obligation"`
+	Excuse     string `json:"excuse,omitempty"`
+	What       string `json:"what"`
+	Commit     string `json:"commit,omitempty"`
+	Replay     string `json:"replay,omitempty"`
+}
+
+type UnclaimedEntry struct {
+	Obligation string `json:"obligation"` // base name, or prefix ending in '*'
+	Class      string `json:"class"`
+	Reason     string `json:"reason"`
+}
+
+type LockFile struct {
+	Properties map[string][]string `json:"properties"` // property -> mandatory obligation base names
+}
+
+func readJSON(path string, v any) error {
+	data, err := os.ReadFile(path)
+	if err != nil {
+		return err
+	}
+	return json.Unmarshal(data, v)
+}
+
+func loadKnownFindings() []KnownFinding {
+	var kf []KnownFinding
+	readJSON(filepath.Join(verifDir, "known_findings.json"), &kf)
+	return kf
+}
+
+func loadUnclaimed() []UnclaimedEntry {
+	var u []UnclaimedEntry
+	readJSON(filepath.Join(verifDir, "unclaimed.json"), &u)
+	return u
+}
+
+func loadLock() *LockFile {
+	l := &LockFile{Properties: map[string][]string{}}
+	readJSON(filepath.Join(verifDir, "obligations.lock.json"), l)
+	if l.Properties == nil {
+		l.Properties = map[string][]string{}
+	}
+	return l
+}
+
+func matchUnclaimed(u []UnclaimedEntry, base string) *UnclaimedEntry {
+	for i := range u {
+		p := u[i].Obligation
+		if p == base || (strings.HasSuffix(p, "*") && strings.HasPrefix(base, strings.TrimSuffix(p, "*"))) {
+			return &u[i]
+		}
+	}
+	return nil
+}
+
+func hasProp(props []string, p string) bool {
+	for _, x := range props {
+		if x == p {
+			return true
+		}
+	}
+	return false
+}
+
+func contractServes(fc *FuncContract, prop string) bool {
+	if hasProp(fc.Props, prop) {
+		return true
+	}
+	for _, c := range fc.Ensures {
+		if hasProp(c.Props, prop) {
+			return true
+		}
+	}
+	return false
+}
+
+type PropertyRun struct {
+	Prop        string
+	Funcs       []string
+	FnErrors    map[string]string
+	Outcomes    []OblOutcome // claimed obligations
+	Canaries    []OblOutcome
+	Unclaimed   []OblOutcome
+	UnclaimedWhy map[string]*UnclaimedEntry
+	Notes       []string
+	Trusted     map[string]bool
+	Requires    []string
+	SolverSecs  float64
+	Abstracted  []string
+}
+
+func isMandatoryKind(k string) bool { return k == "ensures" || k == "lemma" }
+
+// runProperty generates and discharges all obligations serving a property.
+func runProperty(P *Program, DB *ContractDB, prop string, timeoutS, seed int, allSolvers bool, wd string, kfs []KnownFinding, unclaimed []UnclaimedEntry) *PropertyRun {
+	pr := &PropertyRun{Prop: prop, FnErrors: map[string]string{}, Trusted: map[string]bool{}, UnclaimedWhy: map[string]*UnclaimedEntry{}}
+	excuses := map[string]string{}
+	for _, k := range kfs {
+		if k.Status == "known" && k.Excuse != "" {
+			excuses[k.Obligation] = k.Excuse
+		}
+	}
+	var keys []string
+	for k, fc := range DB.Funcs {
+		if fc.Kind == "func" && fc.Trusted == "" && contractServes(fc, prop) {
+			keys = append(keys, k)
+		}
+	}
+	sort.Strings(keys)
+	pr.Funcs = keys
+	var claimed, canaries, uncl []*Obligation
+	for _, k := range keys {
+		fc := DB.Funcs[k]
+		fr := VerifyFuncX(P, DB, fc, true, excuses)
+		if fr.Err != nil {
+			pr.FnErrors[k] = fr.Err.Error()
+			continue
+		}
+		for _, n := range fr.Notes {
+			pr.Notes = append(pr.Notes, k+": "+n)
+		}
+		for _, tr := range fr.Trusted {
+			pr.Trusted[tr] = true
+		}
+		for _, r := range fc.Requires {
+			pr.Requires = append(pr.Requires, fmt.Sprintf("%s requires %s: %s", k, r.Name, r.Raw))
+		}
+		for _, o := range fr.Obls {
+			if !hasProp(o.Props, prop) {
+				continue
+			}
+			if o.Kind == "canary" {
+				canaries = append(canaries, o)
+				continue
+			}
+			if u := matchUnclaimed(unclaimed, o.Base()); u != nil {
+				uncl = append(uncl, o)
+				pr.UnclaimedWhy[o.Base()] = u
+				continue
+			}
+			claimed = append(claimed, o)
+		}
+	}
+	for _, l := range DB.Lemmas {
+		if !hasProp(l.Props, prop) {
+			continue
+		}
+		fr := VerifyLemma(P, DB, l)
+		if fr.Err != nil {
+			pr.FnErrors["lemma."+l.Name] = fr.Err.Error()
+			continue
+		}
+		pr.Funcs = append(pr.Funcs, "lemma."+l.Name)
+		for _, o := range fr.Obls {
+			if u := matchUnclaimed(unclaimed, o.Base()); u != nil {
+				uncl = append(uncl, o)
+				pr.UnclaimedWhy[o.Base()] = u
+				continue
+			}
+			claimed = append(claimed, o)
+		}
+	}
+	t0 := time.Now()
+	workers := 10
+	pr.Outcomes = SolveAll(claimed, wd, timeoutS, seed, workers, allSolvers)
+	pr.Canaries = SolveAll(canaries, wd, timeoutS, seed, workers, false)
+	_ = t0
+	for _, oc := range pr.Outcomes {
+		pr.SolverSecs += oc.Res.Seconds
+	}
+	// unclaimed obligations are not run in the quick tier
+	for _, o := range uncl {
+		pr.Unclaimed = append(pr.Unclaimed, OblOutcome{O: o})
+	}
+	return pr
+}
+
+type violation struct {
+	Obligation string
+	Detail     string
+	ReplayPath string
+	FoundInput bool
+}
+
+func cmdCheck(args []string) int {
+	fs := flag.NewFlagSet("check", flag.ExitOnError)
+	prop := fs.String("p", "", "property id")
+	tier := fs.String("tier", "quick", "quick|thorough")
+	fs.Parse(args)
+	if *prop == "" {
+		fmt.Fprintln(os.Stderr, "check: -p required")
+		return 2
+	}
+	if t := os.Getenv("VERIF_TIER"); t == "quick" || t == "thorough" {
+		*tier = t
+	}
+	seed := 0
+	if s := os.Getenv("VERIF_SEED"); s != "" {
+		if v, err := strconv.Atoi(s); err == nil {
+			seed = v
+		}
+	}
+	start := time.Now()
+	wd := workDir()
+	defer os.RemoveAll(wd)
+	P, DB, err := loadAll(nil)
+	if err != nil {
+		fmt.Printf("gvc: cannot load /repo or its contracts: %v\n", err)
+		// fail closed: the verifier did not accept the obligations
+		return reportLoadFailure(*prop, *tier, seed, err, start)
+	}
+	kfs := loadKnownFindings()
+	unclaimed := loadUnclaimed()
+	lock := loadLock()
+	timeoutS := 10
+	all := false
+	if *tier == "thorough" {
+		timeoutS = 60
+		all = true
+	}
+	pr := runProperty(P, DB, *prop, timeoutS, seed, all, wd, kfs, unclaimed)
+
+	var viols []violation
+	// functions that could not be translated: fail closed
+	for _, k := range sortedKeys(pr.FnErrors) {
+		viols = append(viols, violation{Obligation: k + "#translate", Detail: pr.FnErrors[k]})
+	}
+	present := map[string]int{}
+	discharged := 0
+	var secs float64
+	machinery := false
+	for _, oc := range pr.Outcomes {
+		present[oc.O.Base()]++
+		secs += oc.Res.Seconds
+		if oc.Res.Disagree {
+			fmt.Printf("gvc: solver disagreement on %s: %v\n", oc.O.Name(), oc.Res.Answers)
+			machinery = true
+			continue
+		}
+		if oc.OK {
+			discharged++
+			continue
+		}
+		if oc.O.Kind == "vacuity" {
+			// a vacuity guard that is not sat: the precondition became contradictory or a return unreachable
+			viols = append(viols, violation{Obligation: oc.O.Name(), Detail: "vacuity guard not satisfiable: " + oc.Res.Status})
+			continue
+		}
+		viols = append(viols, violation{Obligation: oc.O.Name(), Detail: oc.Res.Status})
+	}
+	// thorough: extra seeds (brittleness) — failures here are reported as machinery warnings, then as violations
+	if *tier == "thorough" && len(viols) == 0 && !machinery {
+		for _, s2 := range []int{seed + 1, seed + 2} {
+			var obls []*Obligation
+			for _, oc := range pr.Outcomes {
+				obls = append(obls, oc.O)
+			}
+			for _, oc := range SolveAll(obls, wd, timeoutS, s2, 10, false) {
+				secs += oc.Res.Seconds
+				if !oc.OK {
+					viols = append(viols, violation{Obligation: oc.O.Name(), Detail: fmt.Sprintf("%s under solver seed %d", oc.Res.Status, s2)})
+				}
+			}
+		}
+	}
+	// locked mandatory obligations must still exist
+	for _, base := range lock.Properties[*prop] {
+		if present[base] == 0 {
+			if u := matchUnclaimed(unclaimed, base); u != nil {
+				continue
+			}
+			already := false
+			for _, v := range viols {
+				if strings.HasPrefix(base, strings.TrimSuffix(v.Obligation, "#translate")) {
+					already = true
+				}
+			}
+			if !already {
+				viols = append(viols, violation{Obligation: base, Detail: "locked obligation is no longer generated (function, clause or contract missing)"})
+			}
+		}
+	}
+	// known findings: canaries
+	canarySat := map[string]bool{}
+	canarySeen := map[string]bool{}
+	for _, oc := range pr.Canaries {
+		canarySeen[oc.O.Base()] = true
+		if oc.Res.Status == "sat" {
+			canarySat[oc.O.Base()] = true
+		}
+	}
+	for _, k := range kfs {
+		if k.Property != *prop || k.Status != "known" {
+			continue
+		}
+		cb := strings.Replace(k.Obligation, "#ensures:", "#canary:", 1)
+		if canarySat[cb] {
+			fmt.Printf("KNOWN-FINDING: property=%s %s %s\n", *prop, k.Obligation, k.What)
+		} else if canarySeen[cb] {
+			fmt.Printf("note: known finding %s is no longer reproducible by the verifier (excused region not refutable)\n", k.Obligation)
+		}
+	}
+
+	// replay + report
+	exit := 0
+	replayDir := filepath.Join(verifDir, "replays", *prop)
+	if len(viols) > 0 {
+		os.MkdirAll(replayDir, 0o755)
+	}
+	byName := map[string]OblOutcome{}
+	for _, oc := range pr.Outcomes {
+		byName[oc.O.Name()] = oc
+	}
+	reg := loadReplayRegistry()
+	for i := range viols {
+		v := &viols[i]
+		path := filepath.Join(replayDir, sanitizeFile(v.Obligation)+".json")
+		rec := map[string]any{"property": *prop, "obligation": v.Obligation, "verifier_status": v.Detail}
+		if oc, ok := byName[v.Obligation]; ok {
+			rec["answers"] = oc.Res.Answers
+			rec["position"] = oc.O.Pos
+			if oc.O.Clause != nil {
+				rec["clause"] = oc.O.Clause.Raw
+				rec["clause_where"] = oc.O.Clause.Where
+			}
+			script := oc.O.B.Script([]string{oc.O.Reach, not(oc.O.Goal)}, false)
+			if oc.Res.Status == "sat" {
+				m := GetModel(wd, oc.O.Name(), script, 20)
+				if len(m) > 60000 {
+					m = m[:60000] + "\n...truncated"
+				}
+				rec["model"] = m
+			} else {
+				rec["solver_output"] = truncate(oc.Res.Detail, 4000)
+			}
+			rec["smt_query_bytes"] = len(script)
+			// replay on the real code
+			rr := runReplay(reg, oc.O, *prop, wd)
+			if rr != nil {
+				rec["replay"] = rr
+				if rr.Failed {
+					v.FoundInput = true
+				}
+			}
+		}
+		data, _ := json.MarshalIndent(rec, "", " ")
+		os.WriteFile(path, data, 0o644)
+		v.ReplayPath = path
+		line := fmt.Sprintf("VIOLATION property=%s replay=%s", *prop, path)
+		if !v.FoundInput {
+			line += " no-failing-input-found"
+		}
+		fmt.Printf("failed obligation: %s (%s)\n", v.Obligation, v.Detail)
+		fmt.Println(line)
+		exit = 1
+	}
+	if machinery && exit == 0 {
+		exit = 2
+	}
+	var standins []map[string]any
+	if *tier == "thorough" && exit == 0 {
+		// bounded stand-ins / executable contracts on the real code
+		standins = runStandins(reg, pr, *prop, wd)
+		for _, s := range standins {
+			if f, _ := s["failed"].(bool); f {
+				os.MkdirAll(replayDir, 0o755)
+				path := filepath.Join(replayDir, "standin-"+sanitizeFile(fmt.Sprint(s["function"]))+".json")
+				data, _ := json.MarshalIndent(s, "", " ")
+				os.WriteFile(path, data, 0o644)
+				fmt.Printf("VIOLATION property=%s replay=%s\n", *prop, path)
+				exit = 1
+			}
+		}
+		// must-fail corpus
+		if rc := runMutantsFor(*prop, wd); rc != 0 {
+			exit = 2
+		}
+	}
+	writeEvidence(pr, *prop, *tier, seed, discharged, len(viols), secs, time.Since(start).Seconds(), standins, kfs)
+	fmt.Printf("property %s: %d functions under contract, %d obligations, %d discharged, %d failed, %d unclaimed, solver %.1fs, wall %.1fs\n",
+		*prop, len(pr.Funcs), len(pr.Outcomes), discharged, len(viols), len(pr.Unclaimed), secs, time.Since(start).Seconds())
+	return exit
+}
+
+func truncate(s string, n int) string {
+	if len(s) > n {
+		return s[:n] + "...truncated"
+	}
+	return s
+}
+
+func reportLoadFailure(prop, tier string, seed int, err error, start time.Time) int {
+	replayDir := filepath.Join(verifDir, "replays", prop)
+	os.MkdirAll(replayDir, 0o755)
+	path := filepath.Join(replayDir, "load-failure.json")
+	data, _ := json.MarshalIndent(map[string]any{"property": prop, "obligation": "load", "error": err.Error()}, "", " ")
+	os.WriteFile(path, data, 0o644)
+	// a broken build or contract file is a machinery failure, not a property violation
+	return 2
+}
+
+func writeEvidence(pr *PropertyRun, prop, tier string, seed, discharged, nviol int, solverSecs, wall float64, standins []map[string]any, kfs []KnownFinding) {
+	var per []map[string]any
+	backends := map[string]int{}
+	for _, oc := range pr.Outcomes {
+		per = append(per, map[string]any{"name": oc.O.Name(), "status": oc.Res.Status, "expected": oc.O.Expect, "backend": oc.Res.Backend, "seconds": round3(oc.Res.Seconds)})
+		backends[oc.Res.Backend]++
+	}
+	var samples []map[string]any
+	for _, oc := range pr.Outcomes {
+		if oc.O.Kind == "ensures" && len(samples) < 4 {
+			s := map[string]any{"obligation": oc.O.Name(), "position": oc.O.Pos, "goal_smt": truncate(oc.O.Goal, 600), "status": oc.Res.Status}
+			if oc.O.Clause != nil {
+				s["clause"] = oc.O.Clause.Raw
+			}
+			samples = append(samples, s)
+		}
+	}
+	for _, oc := range pr.Outcomes {
+		if oc.O.Kind != "ensures" && oc.O.Kind != "vacuity" && len(samples) < 6 {
+			samples = append(samples, map[string]any{"obligation": oc.O.Name(), "position": oc.O.Pos, "goal_smt": truncate(oc.O.Goal, 300), "status": oc.Res.Status})
+		}
+	}
+	if len(samples) == 0 {
+		samples = append(samples, map[string]any{"note": "no obligations generated"})
+	}
+	var trusted []string
+	for k := range pr.Trusted {
+		trusted = append(trusted, k)
+	}
+	sort.Strings(trusted)
+	var uncl []map[string]any
+	for _, oc := range pr.Unclaimed {
+		u := pr.UnclaimedWhy[oc.O.Base()]
+		uncl = append(uncl, map[string]any{"obligation": oc.O.Name(), "class": u.Class, "reason": u.Reason})
+	}
+	var known []string
+	for _, k := range kfs {
+		if k.Property == prop {
+			known = append(known, fmt.Sprintf("%s: %s %s", k.Status, k.Obligation, k.What))
+		}
+	}
+	assumptions := []string{
+		"sequential semantics: locks, wait groups and semaphores are no-ops; goroutines started with `go` are not executed",
+		"termination is not proved (partial correctness)",
+		"integers are mathematical; each arithmetic operation and narrowing conversion in a function under contract carries its own no-overflow/lossless obligation (kind ovf/conv), claimed only where discharged",
+		"strings are an uninterpreted sort (length, concatenation length, literal distinctness only); floats are uninterpreted",
+		"preconditions (`requires`) of functions under contract are proved at call sites that are themselves under contract and assumed at all other call sites",
+		"the go/ssa construction of golang.org/x/tools v0.29.0 and the SSA->SMT translation of /verif/cmd/gvc are trusted",
+	}
+	assumptions = append(assumptions, pr.Requires...)
+	for _, n := range pr.Notes {
+		assumptions = append(assumptions, "abstraction: "+n)
+	}
+	ev := map[string]any{
+		"property_id": prop,
+		"tier":        tier,
+		"seed":        seed,
+		"level":       "proof",
+		"coverage": map[string]any{
+			"obligations":              len(pr.Outcomes),
+			"discharged":               discharged,
+			"checker_cmd":              fmt.Sprintf("./bin/gvc check -p %s -tier %s", prop, tier),
+			"trusted_base":             trusted,
+			"functions_under_contract": pr.Funcs,
+			"per_obligation":           per,
+			"backends":                 backends,
+			"solver_seconds_total":     round3(solverSecs),
+			"samples":                  samples,
+			"unclaimed":                uncl,
+			"bounded_standins":         standins,
+			"known_findings":           known,
+			"translation_errors":       pr.FnErrors,
+		},
+		"assumptions": assumptions,
+		"wall_s":      round3(wall),
+		"violations":  nviol,
+	}
+	os.MkdirAll(filepath.Join(verifDir, "evidence"), 0o755)
+	data, _ := json.MarshalIndent(ev, "", " ")
+	os.WriteFile(filepath.Join(verifDir, "evidence", prop+".json"), data, 0o644)
+}
+
+func round3(f float64) float64 { return float64(int(f*1000+0.5)) / 1000 }
+
+// cmdLock regenerates obligations.lock.json from the current tree (run by hand after contract changes; never at check time).
+func cmdLock(args []string) int {
+	P, DB, err := loadAll(nil)
+	if err != nil {
+		fmt.Println("load error:", err)
+		return 2
+	}
+	props := map[string]bool{}
+	for _, fc := range DB.Funcs {
+		for _, p := range fc.Props {
+			props[p] = true
+		}
+		for _, c := range fc.Ensures {
+			for _, p := range c.Props {
+				props[p] = true
+			}
+		}
+	}
+	for _, l := range DB.Lemmas {
+		for _, p := range l.Props {
+			props[p] = true
+		}
+	}
+	wd := workDir()
+	defer os.RemoveAll(wd)
+	kfs := loadKnownFindings()
+	unclaimed := loadUnclaimed()
+	lock := &LockFile{Properties: map[string][]string{}}
+	rc := 0
+	for _, p := range sortedKeys(props) {
+		pr := runProperty(P, DB, p, 10, 0, false, wd, kfs, unclaimed)
+		set := map[string]bool{}
+		for k, e := range pr.FnErrors {
+			fmt.Printf("%s: %s: translation error: %s\n", p, k, e)
+			rc = 1
+		}
+		for _, oc := range pr.Outcomes {
+			if !oc.OK {
+				fmt.Printf("%s: NOT discharged: %s (%s)\n", p, oc.O.Name(), oc.Res.Status)
+				rc = 1
+				continue
+			}
+			if isMandatoryKind(oc.O.Kind) {
+				set[oc.O.Base()] = true
+			}
+		}
+		lock.Properties[p] = sortedKeys(set)
+		fmt.Printf("%s: %d obligations, %d mandatory clauses locked\n", p, len(pr.Outcomes), len(set))
+	}
+	data, _ := json.MarshalIndent(lock, "", " ")
+	os.WriteFile(filepath.Join(verifDir, "obligations.lock.json"), data, 0o644)
+	return rc
+}
